@@ -4,11 +4,6 @@ From PV Require Import Model.KeyRegistry.
 Import ListNotations.
 Local Open Scope N_scope.
 
-(** Invariant: every stored bundle carries a verifying signature (it was checked when added). *)
-Definition AllSig (m : amap) : Prop :=
-  forall i l b, lookup m i = Some l -> In b l -> sig_ok b = true.
-Definition Inv (y : reg) : Prop := AllSig (onetime y) /\ AllSig (longterm y).
-
 Lemma lookup_update_same m i v : lookup (update m i v) i = Some v.
 Proof.
   induction m as [|[k w] m IH]; cbn [update lookup].
@@ -27,35 +22,22 @@ Proof.
     + destruct (N.eqb_spec k j); [reflexivity|exact IH].
 Qed.
 
-Lemma AllSig_update m i v :
-  AllSig m -> (forall b, In b v -> sig_ok b = true) -> AllSig (update m i v).
+Lemma bundle_eqb_eq a b : bundle_eqb a b = true <-> a = b.
 Proof.
-  intros HA Hv j l b Hl Hb. destruct (N.eq_dec i j) as [<-|E].
-  - rewrite lookup_update_same in Hl. injection Hl as <-. auto.
-  - rewrite lookup_update_other in Hl by exact E. eapply HA; eauto.
+  unfold bundle_eqb. destruct a as [a1 a2 a3 a4], b as [b1 b2 b3 b4]; cbn [nb na sig_ok tag].
+  split.
+  - intros H. repeat (apply andb_true_iff in H; destruct H as [H ?]).
+    apply N.eqb_eq in H. apply N.eqb_eq in H0. apply N.eqb_eq in H2. apply eqb_prop in H1.
+    now subst.
+  - intros H. injection H as -> -> -> ->.
+    now rewrite !N.eqb_refl, eqb_reflx.
 Qed.
 
-Lemma AllSig_push m i b : AllSig m -> sig_ok b = true -> AllSig (push m i b).
+Lemma contains_In l b : contains l b = true <-> In b l.
 Proof.
-  intros HA Hb. unfold push. apply AllSig_update; [exact HA|].
-  intros x [<-|Hx]; [exact Hb|].
-  destruct (lookup m i) as [l|] eqn:E; [eapply HA; eauto|destruct Hx].
-Qed.
-
-Lemma lookup_map_filter (f : bundle -> bool) m i :
-  lookup (map (fun kv : N * list bundle => (fst kv, filter f (snd kv))) m) i =
-  option_map (filter f) (lookup m i).
-Proof.
-  induction m as [|[k w] m IH]; [reflexivity|]. cbn [map lookup fst snd].
-  destruct (k =? i); [reflexivity|exact IH].
-Qed.
-
-Lemma AllSig_filter f m :
-  AllSig m -> AllSig (map (fun kv : N * list bundle => (fst kv, filter f (snd kv))) m).
-Proof.
-  intros HA i l b Hl Hb. rewrite lookup_map_filter in Hl.
-  destruct (lookup m i) as [l0|] eqn:E; [|discriminate]. injection Hl as <-.
-  apply filter_In in Hb. eapply HA; eauto. tauto.
+  unfold contains. rewrite existsb_exists. split.
+  - intros [x [Hx E]]. apply bundle_eqb_eq in E. now subst.
+  - intros H. exists b. split; [exact H|now apply bundle_eqb_eq].
 Qed.
 
 Lemma verify_none t b : verify t b = None <-> valid_at t b = true.
@@ -102,117 +84,171 @@ Proof.
     + split; [intros b Hb; destruct (IH1 b Hb); split; [assumption|now right]|intros b Hb; right; auto].
 Qed.
 
-(** A one-time bundle is handed out only if no newer stored bundle verifies (LIFO order kept). *)
-Lemma lkb_fold_spec t : forall vec acc,
-  (forall c, acc = Some c -> life_ok t c = true) ->
-  forall b, fold_left (lkb_step t) vec acc = Some b -> life_ok t b = true /\ (acc = Some b \/ In b vec).
+(** [latest_key_bundle] with per-bundle filter [ok]: the answer passes the filter and is one of
+    the given bundles. *)
+Lemma lkb_fold_spec ok : forall vec acc,
+  (forall c, acc = Some c -> ok c = true) ->
+  forall b, fold_left (lkb_step_gen ok) vec acc = Some b -> ok b = true /\ (acc = Some b \/ In b vec).
 Proof.
   induction vec as [|x vec IH]; intros acc Ha b H; cbn [fold_left] in H.
   - split; [now apply Ha|now left].
   - apply IH in H.
     + destruct H as [H1 [H2|H2]]; split; auto.
-      unfold lkb_step in H2. destruct (life_ok t x) eqn:E; [|now left].
+      unfold lkb_step_gen in H2. destruct (ok x) eqn:E; [|now left].
       destruct acc as [c|]; [destruct (na c <? na x)|]; try (now left);
         injection H2 as <-; right; now left.
       right. now right.
-    + intros c Hc. unfold lkb_step in Hc. destruct (life_ok t x) eqn:E; [|now apply Ha].
+    + intros c Hc. unfold lkb_step_gen in Hc. destruct (ok x) eqn:E; [|now apply Ha].
       destruct acc as [c0|]; [destruct (na c0 <? na x)|]; try (injection Hc as <-; exact E); now apply Ha.
 Qed.
 
 Lemma latest_key_bundle_spec t vec b :
-  latest_key_bundle t vec = Some b -> life_ok t b = true /\ In b vec.
+  latest_key_bundle t vec = Some b -> valid_at t b = true /\ In b vec.
 Proof.
   intros H. apply lkb_fold_spec in H; [|discriminate].
   destruct H as [H1 [H2|H2]]; [discriminate|auto].
 Qed.
 
-(** The long-term answer has the furthest expiry among the bundles valid now. *)
-Lemma lkb_fold_max t : forall vec acc b,
-  fold_left (lkb_step t) vec acc = Some b ->
+Lemma latest_key_bundle_asis_spec t vec b :
+  latest_key_bundle_asis t vec = Some b -> life_ok t b = true /\ In b vec.
+Proof.
+  intros H. apply lkb_fold_spec in H; [|discriminate].
+  destruct H as [H1 [H2|H2]]; [discriminate|auto].
+Qed.
+
+(** The long-term answer has the furthest expiry among the bundles that pass the filter. *)
+Lemma lkb_fold_max ok : forall vec acc b,
+  fold_left (lkb_step_gen ok) vec acc = Some b ->
   (forall c, acc = Some c -> na c <= na b) /\
-  (forall x, In x vec -> life_ok t x = true -> na x <= na b).
+  (forall x, In x vec -> ok x = true -> na x <= na b).
 Proof.
   induction vec as [|x vec IH]; intros acc b H; cbn [fold_left] in H.
   - subst. split; [intros c Hc; injection Hc as <-; lia|intros ? []].
   - destruct (IH _ _ H) as [H1 H2]. split.
-    + intros c ->. unfold lkb_step in H1. destruct (life_ok t x); [|now apply H1].
+    + intros c ->. unfold lkb_step_gen in H1. destruct (ok x); [|now apply H1].
       destruct (N.ltb_spec (na c) (na x)) as [L|L]; [specialize (H1 _ eq_refl); lia|now apply H1].
     + intros z [Ez|Hz] Hv; [subst z|now apply H2].
-      unfold lkb_step in H1. rewrite Hv in H1. destruct acc as [c|]; [|now apply H1].
+      unfold lkb_step_gen in H1. rewrite Hv in H1. destruct acc as [c|]; [|now apply H1].
       destruct (N.ltb_spec (na c) (na x)) as [L|L]; [now apply H1|specialize (H1 _ eq_refl); lia].
 Qed.
 
-Theorem step_ok get_ot y o :
-  (forall t y i, Inv y ->
-     Inv (fst (get_ot t y i)) /\
-     forall b, snd (get_ot t y i) = Got (Some b) -> valid_at t b = true) ->
-  Inv y -> Inv (fst (step get_ot y o)) /\ answer_ok o (snd (step get_ot y o)).
+(** Whatever the stored state is — built by [add_*], restored from persistence, left behind by a
+    clock change — the one-time getter only hands out a bundle that verifies now ... *)
+Theorem get_onetime_valid t y i b :
+  snd (get_onetime t y i) = Got (Some b) -> valid_at t b = true.
 Proof.
-  intros Hget [HO HL]. destruct o as [t i b|t i b|t i|t i|t]; cbn [step].
-  - unfold add_onetime. destruct (verify t b) eqn:E; cbn [fst snd answer_ok]; [split; [split|]; auto|].
-    apply verify_none in E. split; [|exact E]. split; cbn [onetime longterm]; [|exact HL].
-    apply AllSig_push; [exact HO|]. unfold valid_at in E. apply andb_true_iff in E. tauto.
-  - unfold add_longterm. destruct (verify t b) eqn:E; cbn [fst snd answer_ok]; [split; [split|]; auto|].
-    apply verify_none in E. split; [|exact E]. split; cbn [onetime longterm]; [exact HO|].
-    apply AllSig_push; [exact HL|]. unfold valid_at in E. apply andb_true_iff in E. tauto.
-  - destruct (Hget t y i (conj HO HL)) as [H1 H2]. split; [exact H1|].
-    destruct (snd (get_ot t y i)) as [| |[b|]| |] eqn:E; cbn [answer_ok]; auto.
-  - unfold get_longterm. destruct (lookup (longterm y) i) as [l|] eqn:E; [|cbn [fst snd answer_ok]; split; [split; assumption|exact I]].
-    destruct (latest_key_bundle t (rev l)) as [b|] eqn:E2; cbn [fst snd].
-    + split; [split; assumption|]. cbn [answer_ok].
-      apply latest_key_bundle_spec in E2. destruct E2 as [Hv Hi].
-      unfold valid_at. rewrite Hv. cbn [andb]. eapply HL; eauto. now apply in_rev.
-    + split; [split; assumption|]. destruct l; cbn [answer_ok]; auto.
-  - unfold remove_expired. cbn [fst snd answer_ok]. split; [|exact I].
-    split; cbn [onetime longterm]; now apply AllSig_filter.
+  unfold get_onetime. destruct (lookup (onetime y) i) as [l|]; cbn [snd]; [|discriminate].
+  destruct (pop_valid_spec t l) as [P1 _].
+  destruct (pop_valid t l) as [l' r]. cbn [fst snd] in *.
+  intros Hb. injection Hb as ->. now apply P1.
 Qed.
 
-Lemma get_onetime_ok t y i :
-  Inv y ->
-  Inv (fst (get_onetime t y i)) /\
-  forall b, snd (get_onetime t y i) = Got (Some b) -> valid_at t b = true.
+(** ... and it is one of the stored ones. *)
+Theorem get_onetime_stored t y i b :
+  snd (get_onetime t y i) = Got (Some b) -> In b (stored (onetime y) i).
 Proof.
-  intros [HO HL]. unfold get_onetime.
-  destruct (lookup (onetime y) i) as [l|] eqn:E; cbn [fst snd]; [|split; [split; assumption|discriminate]].
-  destruct (pop_valid_spec t l) as [P1 P2].
-  destruct (pop_valid t l) as [l' r] eqn:EP. cbn [fst snd] in *. split.
-  - split; cbn [onetime longterm]; [|exact HL].
-    apply AllSig_update; [exact HO|]. intros b Hb. eapply HO; eauto.
-  - intros b Hb. injection Hb as ->. now apply P1.
+  unfold get_onetime, stored. destruct (lookup (onetime y) i) as [l|]; cbn [snd]; [|discriminate].
+  destruct (pop_valid_spec t l) as [P1 _].
+  destruct (pop_valid t l) as [l' r]. cbn [fst snd] in *.
+  intros Hb. injection Hb as ->. now apply P1.
+Qed.
+
+(** ... and so does the long-term getter. *)
+Theorem get_longterm_valid t y i b :
+  snd (get_longterm t y i) = Got (Some b) -> valid_at t b = true /\ In b (stored (longterm y) i).
+Proof.
+  unfold get_longterm, get_longterm_gen, stored.
+  destruct (lookup (longterm y) i) as [l|]; cbn [snd]; [|discriminate].
+  destruct (latest_key_bundle t (rev l)) as [c|] eqn:E2; cbn [snd].
+  - intros H. injection H as ->. apply latest_key_bundle_spec in E2.
+    destruct E2 as [Hv Hi]. split; [exact Hv|now apply in_rev].
+  - destruct l; discriminate.
+Qed.
+
+Theorem get_valid_from_any_state t y i b :
+  (snd (get_onetime t y i) = Got (Some b) -> valid_at t b = true) /\
+  (snd (get_longterm t y i) = Got (Some b) -> valid_at t b = true).
+Proof.
+  split; [apply get_onetime_valid|]. intros H. now apply get_longterm_valid in H.
+Qed.
+
+Theorem get_returns_stored t y i b :
+  (snd (get_onetime t y i) = Got (Some b) -> In b (stored (onetime y) i)) /\
+  (snd (get_longterm t y i) = Got (Some b) -> In b (stored (longterm y) i)).
+Proof.
+  split; [apply get_onetime_stored|]. intros H. now apply get_longterm_valid in H.
+Qed.
+
+(** Registering a bundle that is already stored: verified like any other bundle. *)
+Theorem readd_requires_valid t y i b :
+  In b (stored (longterm y) i) ->
+  (snd (add_longterm t y i b) = Accepted -> valid_at t b = true) /\
+  (valid_at t b = true -> add_longterm t y i b = (y, Accepted)) /\
+  (valid_at t b = false -> exists e, add_longterm t y i b = (y, Rejected e)).
+Proof.
+  intros Hin. split; [apply never_accept_invalid_longterm|]. split.
+  - intros Hv. unfold add_longterm. apply verify_none in Hv. rewrite Hv.
+    apply contains_In in Hin. now rewrite Hin.
+  - intros Hv. destruct (rejected_not_stored t y i b Hv) as [_ H]. eauto.
+Qed.
+
+(** A bundle that is not stored yet and verifies is pushed; nothing else changes. *)
+Theorem add_longterm_fresh t y i b :
+  ~ In b (stored (longterm y) i) -> valid_at t b = true ->
+  add_longterm t y i b = ({| onetime := onetime y; longterm := push (longterm y) i b |}, Accepted).
+Proof.
+  intros Hn Hv. unfold add_longterm. apply verify_none in Hv. rewrite Hv.
+  destruct (contains (stored (longterm y) i) b) eqn:E; [|reflexivity].
+  apply contains_In in E. contradiction.
+Qed.
+
+Theorem step_ok get_ot y o :
+  (forall t y i b, snd (get_ot t y i) = Got (Some b) -> valid_at t b = true) ->
+  answer_ok o (snd (step get_ot y o)).
+Proof.
+  intros Hget. destruct o as [t i b|t i b|t i|t i|t|t i l|t i l|t i]; cbn [step].
+  - destruct (snd (add_onetime t y i b)) eqn:E; cbn [answer_ok]; auto.
+    now apply never_accept_invalid_onetime in E.
+  - destruct (snd (add_longterm t y i b)) eqn:E; cbn [answer_ok]; auto.
+    now apply never_accept_invalid_longterm in E.
+  - destruct (snd (get_ot t y i)) as [| |[b|]| | |] eqn:E; cbn [answer_ok]; auto.
+    eapply Hget; eauto.
+  - destruct (snd (get_longterm t y i)) as [| |[b|]| | |] eqn:E; cbn [answer_ok]; auto.
+    now apply get_longterm_valid in E.
+  - cbn [remove_expired snd answer_ok]. exact I.
+  - cbn [set_onetime snd answer_ok]. exact I.
+  - cbn [set_longterm snd answer_ok]. exact I.
+  - cbn [count snd answer_ok]. exact I.
 Qed.
 
 Lemma run_ok get_ot :
-  (forall t y i, Inv y ->
-     Inv (fst (get_ot t y i)) /\
-     forall b, snd (get_ot t y i) = Got (Some b) -> valid_at t b = true) ->
-  forall ops y, Inv y -> Forall2 answer_ok ops (snd (run get_ot y ops)).
+  (forall t y i b, snd (get_ot t y i) = Got (Some b) -> valid_at t b = true) ->
+  forall ops y, Forall2 answer_ok ops (snd (run get_ot y ops)).
 Proof.
-  intros Hget. induction ops as [|o ops IH]; intros y HI; cbn [run].
+  intros Hget. induction ops as [|o ops IH]; intros y; cbn [run].
   - constructor.
-  - destruct (step_ok get_ot y o Hget HI) as [H1 H2].
+  - pose proof (step_ok get_ot y o Hget) as H2.
     destruct (step get_ot y o) as [y1 x]. cbn [fst snd] in *.
-    specialize (IH y1 H1). destruct (run get_ot y1 ops) as [y2 xs]. cbn [snd] in *.
+    specialize (IH y1). destruct (run get_ot y1 ops) as [y2 xs]. cbn [snd] in *.
     constructor; assumption.
 Qed.
 
-Lemma Inv_init : Inv init.
-Proof. split; intros i l b H; discriminate. Qed.
-
-(** Main theorem (repaired code): for every sequence of operations with arbitrary clock
-    readings, every accepted bundle is valid when accepted and every returned bundle (one-time
-    or long-term) is valid — lifetime and signature — when returned. *)
-Theorem never_accept_or_return_invalid ops :
-  Forall2 answer_ok ops (snd (run get_onetime init ops)).
-Proof. apply run_ok; [intros; now apply get_onetime_ok|exact Inv_init]. Qed.
+(** Main theorem (repaired code): from ANY registry state [y] (not only states built by
+    [add_*]) and for every sequence of operations — including restoring arbitrary persisted
+    lists — with arbitrary clock readings, every accepted bundle is valid when accepted and every
+    returned bundle (one-time or long-term) is valid — lifetime and signature — when returned. *)
+Theorem never_accept_or_return_invalid y ops :
+  Forall2 answer_ok ops (snd (run get_onetime y ops)).
+Proof. apply run_ok. intros. eapply get_onetime_valid; eauto. Qed.
 
 (** The long-term answer is the valid bundle with the furthest expiry. *)
 Theorem longterm_is_furthest t y i b l x :
   lookup (longterm y) i = Some l -> snd (get_longterm t y i) = Got (Some b) ->
-  In x l -> life_ok t x = true -> na x <= na b.
+  In x l -> valid_at t x = true -> na x <= na b.
 Proof.
-  intros E H Hx Hv. unfold get_longterm in H. rewrite E in H.
+  intros E H Hx Hv. unfold get_longterm, get_longterm_gen in H. rewrite E in H.
   destruct (latest_key_bundle t (rev l)) as [c|] eqn:E2; cbn [snd] in H.
-  - injection H as ->. unfold latest_key_bundle in E2. apply lkb_fold_max in E2.
+  - injection H as ->. unfold latest_key_bundle, lkb_step in E2. apply lkb_fold_max in E2.
     apply (proj2 E2); [now apply in_rev in Hx|exact Hv].
   - destruct l; discriminate.
 Qed.
@@ -248,4 +284,55 @@ Example run_example :
          [AddOT 1000 0 b1; AddOT 1000 0 b2; AddOT 1000 0 b3; AddLT 1000 0 b1; AddLT 1000 0 b2;
           GetLT 1001 0; GetOT 1003 0; GetOT 1003 0; GetLT 1011 0])
   = [Accepted; Accepted; Rejected ESig; Accepted; Accepted; Got (Some b1); Got (Some b1); Got None; Expired].
+Proof. vm_compute. reflexivity. Qed.
+
+(** Before the second repair the long-term path re-checked only the lifetime of a stored
+    bundle: a restored state holding a bundle whose signature does not verify hands it out. *)
+Definition witness_badsig : bundle := {| nb := 990; na := 1010; sig_ok := false; tag := 1 |}.
+Definition witness_restored : reg := fst (set_longterm init 0 [witness_badsig]).
+
+Theorem asis_longterm_returns_unverified :
+  snd (get_longterm_asis 1000 witness_restored 0) = Got (Some witness_badsig) /\
+  valid_at 1000 witness_badsig = false.
+Proof. vm_compute. split; reflexivity. Qed.
+
+Theorem asis_longterm_refuted :
+  ~ (forall t y i b, snd (get_longterm_asis t y i) = Got (Some b) -> valid_at t b = true).
+Proof.
+  intros H. destruct asis_longterm_returns_unverified as [E V].
+  apply H in E. congruence.
+Qed.
+
+(** ... while for states in which every stored long-term signature verifies (all states built by
+    [add_*]) the code before the repair already answered with valid bundles only. *)
+Theorem asis_longterm_outside_known t y i b :
+  (forall x, In x (stored (longterm y) i) -> sig_ok x = true) ->
+  snd (get_longterm_asis t y i) = Got (Some b) -> valid_at t b = true.
+Proof.
+  unfold get_longterm_asis, get_longterm_gen, stored. intros HS.
+  destruct (lookup (longterm y) i) as [l|]; cbn [snd]; [|discriminate].
+  destruct (latest_key_bundle_asis t (rev l)) as [c|] eqn:E2; cbn [snd].
+  - intros H. injection H as ->. apply latest_key_bundle_asis_spec in E2.
+    destruct E2 as [Hv Hi]. unfold valid_at. rewrite Hv. cbn [andb]. apply HS. now apply in_rev.
+  - destruct l; discriminate.
+Qed.
+
+Example repaired_on_restored :
+  snd (get_longterm 1000 witness_restored 0) = Expired.
+Proof. vm_compute. reflexivity. Qed.
+
+(** Non-vacuity for the restored-state and re-registration theorems: a restored list
+    [valid; not yet valid with a later expiry; expired; bad signature] (push order), both
+    getters, then the valid bundle registered again before and after its expiry. *)
+Example restored_example :
+  let v := {| nb := 990; na := 1003; sig_ok := true; tag := 0 |} in
+  let f := {| nb := 1005; na := 1100; sig_ok := true; tag := 1 |} in
+  let e := {| nb := 900; na := 999; sig_ok := true; tag := 2 |} in
+  let s := {| nb := 990; na := 1200; sig_ok := false; tag := 3 |} in
+  snd (run get_onetime init
+         [SetLT 1000 0 [s; e; f; v]; SetOT 1000 0 [s; e; f; v]; Count 1000 0;
+          GetLT 1000 0; GetOT 1000 0; GetOT 1000 0; Count 1000 0;
+          AddLT 1001 0 v; Count 1001 0; AddLT 1003 0 v; GetLT 1006 0])
+  = [Done; Done; Cnt 4 4; Got (Some v); Got (Some v); Got None; Cnt 0 4;
+     Accepted; Cnt 0 4; Rejected ELifetime; Got (Some f)].
 Proof. vm_compute. reflexivity. Qed.
